@@ -12,13 +12,14 @@ RULE = ('bounded-exhaustive: all strings of length <= 4 (5 in thorough) over a 1
         'the tiling/soundness predicates restated independently (keyboard adjacency, context list, year form, digit/alpha/other character classes, multi-word counts) and the counters against an independent tally; '
         'non-trivial = password whose segmentation has >= 2 sections or a non-"other" label')
 ASSUMPTIONS = ['"digit segments are maximal digit runs" is checked as: all characters are digits and no digit section is adjacent to another digit section or to a year section (a digit section next to a keyboard-walk section that ends in a digit is not flagged)',
-               'multi-word histories train only pure alphabetic words, so the reference counts are the training multiplicities',
+               'the reference counts of a multi-word history are an independent tally of the maximal letter runs (>= 4 letters) of its training passwords',
                'section lists are observed by wrapping base_structure_creation in the parser module namespace']
 NSHARDS = 32
 
 CHARS = ['a', 'B', 'é', '1', '9', '2', '0', '#', '.', '@', 'q', 'w', ' ', 'İ']
 TOKENS = ['pass', 'Word', 'word', 'password', 'é', 'Я', '1', '12', '19', '20', '2019', '1999', '20199', '#1', '#12', '<3', 'No.1', ';p', '*0*',
-          'qwer', '1qaz', 'asdf', '123q', '!', '@', '.', '.com', 'www.', 'http://', 'a@b.com', 'mr.', ' ', 'İ', 'abcdefghijklmnopqrstu', 'zaq1', 'x']
+          'qwer', '1qaz', 'asdf', '123q', '!', '@', '.', '.com', 'www.', 'http://', 'a@b.com', 'mr.', ' ', 'İ', 'abcdefghijklmnopqrstu', 'zaq1', 'x',
+          ':P', 'DR.', 'NO.1']       # context strings in spellings that are not in the fixed list
 HISTORIES = [
     ('untrained', {}, False),
     ('pass,word >= 5', {'pass': 5, 'word': 5}, False),
@@ -26,8 +27,31 @@ HISTORIES = [
     ('pass x4 (below threshold), word x5', {'pass': 4, 'word': 5}, False),
     ('pre-trained via set_threshold', {'pass': 1, 'word': 1}, True),
     ('21-letter word', {'abcdefghijklmnopqrstu': 5, 'pass': 5, 'word': 6, 'qwer': 5}, False),
+    # histories made of passwords, as the first training pass feeds them: only maximal letter runs of >= 4 letters count as seen words
+    ('short letter runs around a non-letter (nothing seen)', {'pa1ss': 5, 'wo#rd': 5, 'word': 4, 'pas.sword': 6}, False),
+    ('words separated by non-letters', {'pass1word': 5, 'x1pass#Word': 1, '12pass': 1}, False),
+    ('short run, non-letter, word', {'pw1pass': 5, 'wo2word': 5, 'a.b.word.c': 1, 'pa$$word': 7}, False),
 ]
 THRESHOLD = 5
+MIN_LEN, MAX_LEN = 4, 21
+
+
+def seen_counts(history, set_threshold):
+    """Reference reading of a training history: how often each word was seen = occurrences as a maximal run of letters (>= MIN_LEN letters,
+    lower-cased) in a training password whose length is within [MIN_LEN, MAX_LEN]."""
+    counts = Counter()
+    for pw, n in history.items():
+        if not MIN_LEN <= len(pw) <= MAX_LEN:
+            continue
+        run = ''
+        for ch in pw.lower() + '\x00':
+            if ch.isalpha():
+                run += ch
+            else:
+                if len(run) >= MIN_LEN:
+                    counts[run] += n
+                run = ''
+    return dict(counts)
 
 CONTEXT = [';p', ':p', '*0*', '#1', 'No.1', 'no.1', 'No.', 'i<3', 'I<3', '<3', 'Mr.', 'mr.', 'MR.', 'MS.', 'Ms.', 'ms.', 'Mz.', 'mz.', 'MZ.', 'St.', 'st.', 'Dr.', 'dr.']
 KEYBOARDS = {
@@ -195,7 +219,7 @@ def check_password(pp, md, hist, pw, last):
     except Exception as e:
         return [('raise', 'parse(%r) raised %r' % (pw, e))], None
     (sup, bs), sections = last
-    res = predicates(pw, sections, hist[1], hist[2])
+    res = predicates(pw, sections, seen_counts(hist[1], hist[2]), hist[2])
     if not res:
         t = c06.tally({pw: (sup, bs, sections)}, [pw])
         got = {'A': parser.count_alpha, 'C': parser.count_alpha_masks, 'D': parser.count_digits, 'O': parser.count_other, 'K': parser.count_keyboard,
